@@ -6,6 +6,8 @@
 // get, set, swap and wait; j is the index of the j-th gate step):
 //
 //	new v m            (first step) NewCContainer(v) if m == 0, else NewCContainerWithEqual(v, equal modulo m)
+//	newvt v            (first step) NewCContainerVT over a vtproto message type: every value is a fresh message,
+//	                   equality is EqualVT (by content); logged as "new v 0"
 //	get [a]            GetValue           (a: do not wait for the call to return)
 //	set [a] v          SetValue(v)
 //	swap [a] inc|setk k|clear|nil   SwapValue with that callback (nil: nil callback)
@@ -13,6 +15,13 @@
 //	                   the call; ech: with an error channel); kinds: value (WaitValue), change o
 //	                   (WaitValueChange), empty (WaitValueEmpty), and WaitValueWithValidator with
 //	                   vnil (nil validator), veq k (v == k), vge k (v >= k), verr k (error when v == k, true when v > k)
+//	watch init [ech] [pre] [errat k]   WatchChanges(ctx, init, ToWatchable(c), cb, errCh) in its own goroutine; the
+//	                   callback returns an error when it is given the value k. Watchers have their own ids
+//	                   ("winv w init [ech]", "wcbin w v", "wcbout w ok|err", "wret w cberr|err e|canceled").
+//	                   Every inner WaitValueChange call WatchChanges makes is logged as an ordinary wait call
+//	                   ("inv t wait change old [ech]" … "ret t wait …") followed by "wcall w t"; the state
+//	                   of the watcher's shared context and error channel is replayed onto each inner call
+//	                   ("env cancel t", "env errsend t e", … right after its invocation).
 //	cancel i           cancel the context of call i
 //	errsend i e        send error number e (>= 2) on the error channel of call i
 //	errnil i           send a nil error on it
@@ -35,8 +44,6 @@ import (
 	"sync"
 	"time"
 
-	"github.com/aperturerobotics/util/ccontainer"
-
 	"verifharness/comp"
 	"verifharness/hist"
 	"verifharness/hook"
@@ -51,8 +58,18 @@ type call struct {
 	isWait bool
 	cancel context.CancelFunc
 	ech    chan error
-	sent   int
+	sent   []int // messages sent on ech so far (0 = nil error, e = error number e)
 	closed bool
+	w      *watcher // set for a watch call
+}
+
+// watcher is the bookkeeping of one WatchChanges call: its context and error channel are shared by
+// all the inner WaitValueChange calls, each of which is an ordinary wait call of the history.
+type watcher struct {
+	wid       int
+	mu        sync.Mutex
+	cur       int // id of the pending inner call, -1 if none
+	cancelled bool
 }
 
 func parseKind(f []string) (kind string, arg int, rest []string, ok bool) {
@@ -85,16 +102,15 @@ func exec(script []string, opt comp.Options) comp.Result {
 	defer h.Uninstall()
 	rng := rand.New(rand.NewSource(opt.Seed ^ 0xcc0))
 
-	var ctr *ccontainer.CContainer[int]
+	var ctr cell
 	mkCtr := func(v, m int) {
-		if m == 0 {
-			ctr = ccontainer.NewCContainer(v)
-		} else {
-			ctr = ccontainer.NewCContainerWithEqual(v, func(a, b int) bool { return a%m == b%m })
+		ctr = newIntCell(v, m)
+		if m != 0 {
 			tag("custom-equal")
 		}
 		log.Add("new %d %d", v, m)
 	}
+	nextW := 0
 	errs := map[int]error{}
 	errNum := map[error]int{errValidator: 1}
 	errOf := func(e int) error {
@@ -161,6 +177,16 @@ func exec(script []string, opt comp.Options) comp.Result {
 		if len(f) == 0 {
 			continue
 		}
+		if f[0] == "newvt" {
+			if n == 0 && len(f) == 2 {
+				if v, e1 := strconv.Atoi(f[1]); e1 == nil && v >= 0 {
+					ctr = newVTCell(v)
+					tag("vtproto-equal")
+					log.Add("new %d 0", v)
+				}
+			}
+			continue
+		}
 		if f[0] == "new" {
 			if n == 0 && len(f) == 3 {
 				v, e1 := strconv.Atoi(f[1])
@@ -180,13 +206,13 @@ func exec(script []string, opt comp.Options) comp.Result {
 			args = f[2:]
 		}
 		switch f[0] {
-		case "get", "set", "swap", "wait":
+		case "get", "set", "swap", "wait", "watch":
 			throttle()
 		}
 		switch f[0] {
 		case "get":
 			runOp(async, "get", func(id int) {
-				v := ctr.GetValue()
+				v := ctr.Get()
 				log.Ret(id, "get %d", v)
 			})
 		case "set":
@@ -201,7 +227,7 @@ func exec(script []string, opt comp.Options) comp.Result {
 				tag("write-between-sample-and-block")
 			}
 			runOp(async, fmt.Sprintf("set %d", v), func(id int) {
-				ctr.SetValue(v)
+				ctr.Set(v)
 				log.Ret(id, "set")
 			})
 		case "swap":
@@ -239,7 +265,7 @@ func exec(script []string, opt comp.Options) comp.Result {
 				}
 			}
 			runOp(async, "swap "+name, func(id int) {
-				r := ctr.SwapValue(cb)
+				r := ctr.Swap(cb)
 				log.Ret(id, "swap %d", r)
 			})
 		case "wait":
@@ -335,8 +361,21 @@ func exec(script []string, opt comp.Options) comp.Result {
 			if i >= len(calls) || !calls[i].isWait {
 				continue
 			}
-			log.Add("env cancel %d", calls[i].id)
-			calls[i].cancel()
+			c := calls[i]
+			if c.w != nil {
+				// the context is shared by the inner calls: it is cancelled for the pending one now and
+				// for every later one at its invocation
+				c.w.mu.Lock()
+				c.w.cancelled = true
+				if c.w.cur >= 0 {
+					log.Add("env cancel %d", c.w.cur)
+				}
+				c.cancel()
+				c.w.mu.Unlock()
+				continue
+			}
+			log.Add("env cancel %d", c.id)
+			c.cancel()
 		case "errsend", "errnil", "errclose":
 			if len(f) < 2 {
 				continue
@@ -346,35 +385,191 @@ func exec(script []string, opt comp.Options) comp.Result {
 				continue
 			}
 			c := calls[i]
+			target := c.id
+			if c.w != nil {
+				c.w.mu.Lock()
+				target = c.w.cur
+			}
 			switch f[0] {
 			case "errsend":
-				if len(f) < 3 || c.sent >= errChCap {
-					continue
+				if len(f) < 3 || len(c.sent) >= errChCap {
+					break
 				}
 				e, err := strconv.Atoi(f[2])
 				if err != nil || e < 2 {
-					continue
+					break
 				}
 				errMu.Lock()
 				er := errOf(e)
 				errMu.Unlock()
-				c.sent++
-				log.Add("env errsend %d %d", c.id, e)
+				c.sent = append(c.sent, e)
+				if target >= 0 {
+					log.Add("env errsend %d %d", target, e)
+				}
 				c.ech <- er
 			case "errnil":
-				if c.sent >= errChCap {
-					continue
+				if len(c.sent) >= errChCap {
+					break
 				}
-				c.sent++
-				log.Add("env errnil %d", c.id)
+				c.sent = append(c.sent, 0)
+				if target >= 0 {
+					log.Add("env errnil %d", target)
+				}
 				c.ech <- nil
 				tag("errch-nil")
 			case "errclose":
 				c.closed = true
-				log.Add("env errclose %d", c.id)
+				if target >= 0 {
+					log.Add("env errclose %d", target)
+				}
 				close(c.ech)
 				tag("errch-closed")
 			}
+			if c.w != nil {
+				c.w.mu.Unlock()
+			}
+		case "watch":
+			// watch init [ech] [pre] [errat k]
+			if len(f) < 2 {
+				continue
+			}
+			init, err := strconv.Atoi(f[1])
+			if err != nil || init < 0 {
+				continue
+			}
+			withCh, pre, errAt := false, false, -1
+			for k := 2; k < len(f); k++ {
+				switch f[k] {
+				case "ech":
+					withCh = true
+				case "pre":
+					pre = true
+				case "errat":
+					if k+1 < len(f) {
+						if v, e := strconv.Atoi(f[k+1]); e == nil {
+							errAt = v
+						}
+					}
+				}
+			}
+			w := &watcher{wid: nextW, cur: -1}
+			nextW++
+			c := &call{isWait: true, w: w, id: -1}
+			ctx, cancel := context.WithCancel(context.Background())
+			c.cancel = cancel
+			var errCh <-chan error
+			line := fmt.Sprintf("winv %d %d", w.wid, init)
+			if withCh {
+				c.ech = make(chan error, errChCap)
+				errCh = c.ech
+				line += " ech"
+			}
+			log.Add("%s", line)
+			calls = append(calls, c)
+			tag("watch")
+			if pre {
+				w.mu.Lock()
+				w.cancelled = true
+				cancel()
+				w.mu.Unlock()
+				tag("precancelled")
+			}
+			errCb := errors.New("callback error")
+			before := func(old int, hasCh bool) func(int, error) {
+				w.mu.Lock()
+				inv := fmt.Sprintf("wait change %d", old)
+				if hasCh {
+					inv += " ech"
+				}
+				t := log.Inv("%s", inv)
+				log.Add("wcall %d %d", w.wid, t)
+				if c.ech != nil {
+					// what is still buffered in the shared channel is what this call will find there
+					n := len(c.ech)
+					if n > len(c.sent) {
+						n = len(c.sent)
+					}
+					for _, m := range c.sent[len(c.sent)-n:] {
+						if m == 0 {
+							log.Add("env errnil %d", t)
+						} else {
+							log.Add("env errsend %d %d", t, m)
+						}
+					}
+					if c.closed {
+						log.Add("env errclose %d", t)
+					}
+				}
+				if w.cancelled {
+					log.Add("env cancel %d", t)
+				}
+				w.cur = t
+				w.mu.Unlock()
+				return func(v int, err error) {
+					switch {
+					case err == nil:
+						log.Ret(t, "wait val %d", v)
+					case errors.Is(err, context.Canceled):
+						log.Ret(t, "wait canceled")
+					default:
+						errMu.Lock()
+						e, known := errNum[err]
+						errMu.Unlock()
+						if known {
+							log.Ret(t, "wait err %d", e)
+						} else {
+							log.Ret(t, "wait err other")
+						}
+					}
+					w.mu.Lock()
+					w.cur = -1
+					w.mu.Unlock()
+				}
+			}
+			ncb := 0
+			cb := func(v int) error {
+				log.Add("wcbin %d %d", w.wid, v)
+				tag("watch-callback")
+				ncb++
+				// the scripted callback gives up after many updates (a runaway watcher must not
+				// flood the history); what it does is in the history either way
+				if v == errAt || ncb > 48 {
+					log.Add("wcbout %d err", w.wid)
+					return errCb
+				}
+				log.Add("wcbout %d ok", w.wid)
+				return nil
+			}
+			wg.Add(1)
+			go func() {
+				defer wg.Done()
+				defer func() {
+					if r := recover(); r != nil {
+						log.Add("wret %d panic", w.wid)
+					}
+				}()
+				err := ctr.Watch(ctx, init, before, cb, errCh)
+				switch {
+				case err == errCb:
+					log.Add("wret %d cberr", w.wid)
+					tag("watch-callback-error")
+				case err == nil:
+					log.Add("wret %d nil", w.wid)
+				case errors.Is(err, context.Canceled):
+					log.Add("wret %d canceled", w.wid)
+					tag("canceled")
+				default:
+					errMu.Lock()
+					e, known := errNum[err]
+					errMu.Unlock()
+					if known {
+						log.Add("wret %d err %d", w.wid, e)
+						tag("errch-error")
+					} else {
+						log.Add("wret %d other", w.wid)
+					}
+				}
+			}()
 		case "gate":
 			if len(f) < 3 {
 				continue
@@ -462,7 +657,7 @@ func gen(rng *rand.Rand, tier string) []string {
 	add := func(s string) {
 		out = append(out, s)
 		switch strings.Fields(s)[0] {
-		case "get", "set", "swap", "wait":
+		case "get", "set", "swap", "wait", "watch":
 			inflight++
 		case "settle", "quiesce":
 			inflight = 0
@@ -479,7 +674,11 @@ func gen(rng *rand.Rand, tier string) []string {
 	if rng.Intn(3) == 0 {
 		init = rng.Intn(maxV)
 	}
-	add(fmt.Sprintf("new %d %d", init, m))
+	if m == 0 && rng.Intn(6) == 0 {
+		add(fmt.Sprintf("newvt %d", init)) // vtproto messages, equality by EqualVT
+	} else {
+		add(fmt.Sprintf("new %d %d", init, m))
+	}
 	incOnly := rng.Intn(5) == 0
 	ncalls, ngates := 0, 0
 	var waits, withCh, live []int
@@ -529,6 +728,30 @@ func gen(rng *rand.Rand, tier string) []string {
 			waits = append(waits, ncalls)
 			live = append(live, ncalls)
 			ncalls++
+		case r < 29:
+			// a watcher, then a few writes it must be told about (one update at a time)
+			s := fmt.Sprintf("watch %d", rng.Intn(maxV))
+			if rng.Intn(3) == 0 {
+				s += " ech"
+				withCh = append(withCh, ncalls)
+			}
+			if rng.Intn(10) == 0 {
+				s += " pre"
+			}
+			if rng.Intn(3) == 0 {
+				s += fmt.Sprintf(" errat %d", rng.Intn(maxV))
+			}
+			add(s)
+			waits = append(waits, ncalls)
+			live = append(live, ncalls)
+			ncalls++
+			for k := rng.Intn(3); k > 0 && ncalls < maxCalls; k-- {
+				if rng.Intn(2) == 0 {
+					add("settle")
+				}
+				add(write())
+				ncalls++
+			}
 		case r < 45:
 			add(write())
 			ncalls++
@@ -637,6 +860,21 @@ func init() {
 			// validator error, nil callback, pre-cancelled context with a satisfied condition
 			{"new 0 0", "wait verr 2", "settle", "set 1", "swap nil", "get", "quiesce", "set 2", "quiesce"},
 			{"new 5 0", "wait value pre", "wait empty pre", "wait verr 5 pre", "quiesce"},
+			// WatchChanges: one callback per change, none for a write of an equal value, ended by ctx
+			{"new 0 0", "watch 0", "settle", "set 1", "settle", "set 1", "set 2", "settle", "swap clear", "settle", "get", "quiesce", "cancel 0", "quiesce"},
+			// ... under the custom equality (13 equals 3 modulo 10: no update), ended by the callback's error
+			{"new 3 10", "watch 3 errat 5", "settle", "set 13", "settle", "set 4", "settle", "set 5", "settle", "set 6", "get", "quiesce"},
+			// ... with an error channel shared by the inner calls: nil errors are skipped, an error ends the watch
+			{"new 0 0", "watch 0 ech", "settle", "errnil 0", "set 2", "settle", "errnil 0", "errnil 0", "set 3", "settle", "get", "quiesce", "errsend 0 4", "quiesce"},
+			{"new 0 0", "watch 0 ech", "settle", "set 1", "settle", "errclose 0", "quiesce"},
+			// ... initial value differs from the content: first update at once; pre-cancelled context
+			{"new 1 0", "watch 0 pre", "quiesce"},
+			{"new 2 0", "watch 5 errat 2", "quiesce"},
+			// ... a write lands between the inner call's sample and its select
+			{"new 0 0", "gate hold-exit 1", "watch 0", "hit 0", "set 3", "open 0", "settle", "set 4", "settle", "cancel 0", "quiesce"},
+			// NewCContainerVT: every value is a fresh message; SetValue of an EqualVT-equal message stores nothing
+			{"newvt 3", "wait change 3", "wait veq 3", "settle", "set 3", "get", "quiesce", "set 4", "get", "set 4", "swap setk 4", "get", "wait empty", "settle", "set 0", "quiesce"},
+			{"newvt 0", "watch 0", "wait value", "settle", "set 2", "settle", "set 2", "settle", "swap inc", "settle", "get", "quiesce", "cancel 0", "quiesce"},
 			// waiter held before its first critical section
 			{"new 0 0", "gate hold-enter 1", "wait change 0", "hit 0", "set 1", "set 0", "open 0", "settle", "get", "quiesce"},
 		},
